@@ -11,6 +11,13 @@ PY = "/venv/bin/python"
 
 # property -> (technique, level text, level note, design ref)
 CLAIMED = {
+    "C11": ("TLA+ specification of flatten / unflatten / reshape on arrays with grouped axes (spec/MC_C11.tla: row-major product labels, "
+            "member axes, composition for reshape) model-checked by TLC (LosslessGrouping, RoundTrip, Naming) and replayed",
+            "TLC enumerates every ordered subset of dims x insert position x container kind (tuple/list/set) for 1-3-d templates (thorough 1-4-d), "
+            "every reshape target built from a permutation cut into groups with an optional new singleton, and the 4-d two-group regroupings; the "
+            "theorems say that every cell keeps its (member) label coordinates; result and unflatten(result) are compared with dimarray.",
+            "Trusted: TLC, projection of MultiAxis objects, NumPy. Grouped labels are compared only for member axes of one kind.",
+            "5 (C11)"),
     "C09": ("TLA+ specification of cumsum/cumprod (fibre prefixes), diff (n+1-cell windows, label rules per scheme, keepaxis padding) and "
             "argmin/argmax (labels of the first extremum, NaN wins) in spec/Arrays.tla, enumerated by TLC with CumKeepsAxes / DiffAxis / ArgLaw theorems; replayed",
             "TLC enumerates operated-axis lengths 1-4 (thorough 1-5) in increasing, decreasing and shuffled order, at every position of 1-3-d arrays, "
